@@ -22,7 +22,7 @@ class MergeWith:
 @contract(YM + "merge_condense_all", props=["C18", "C16"])
 class CondenseAll:
     modifies = ["lhs_docs"]
-    opts = {"event": "('condense', lhs_docs, rhs_docs)"}
+    opts = {"event": "('condense', lhs_docs, rhs_docs)", "returns": "int"}
     params = {"lhs_docs": "List[Merger]", "rhs_docs": "List[Merger]"}
     requires = ["len(lhs_docs) >= 1"]
     ghost = {"m0": "len(lhs_docs)", "n0": "len(rhs_docs)", "first": "lhs_docs[0]"}
@@ -46,7 +46,7 @@ class CondenseAll:
 @contract(YM + "merge_across", props=["C18", "C16"])
 class Across:
     modifies = ["lhs_docs"]
-    opts = {"event": "('across', lhs_docs, rhs_docs)"}
+    opts = {"event": "('across', lhs_docs, rhs_docs)", "returns": "int"}
     params = {"lhs_docs": "List[Merger]", "rhs_docs": "List[Merger]"}
     requires = ["len(lhs_docs) >= 1"]
     ghost = {"m0": "len(lhs_docs)", "n0": "len(rhs_docs)"}
@@ -79,7 +79,7 @@ class DeepCopy:
 @contract(YM + "merge_matrix", props=["C18", "C16"])
 class Matrix:
     modifies = ["lhs_docs"]
-    opts = {"event": "('matrix', lhs_docs, rhs_docs)"}
+    opts = {"event": "('matrix', lhs_docs, rhs_docs)", "returns": "int"}
     params = {"lhs_docs": "List[Merger]", "rhs_docs": "List[Merger]"}
     ghost = {"m0": "len(lhs_docs)"}
     raises = []
@@ -131,3 +131,5 @@ class MergeDocs:
         "implies(len(events) == 1 and mode is MultiDocModes.MATRIX_MERGE, events[0][0] == 'matrix' and events[0][1] is lhs_docs)",
         "implies(len(events) == 0, result == 3)",
     ]
+    # (what a caller's trace records of this call: the stream merged and the status handed back)
+    opts = {"event": "('merge', rhs_file, result)", "returns": "int"}
